@@ -144,7 +144,7 @@ class Controller:
         # wait for all to reach their start point
         pending = n
         while pending:
-            tid, st, pos = self.q.get(timeout=10)
+            tid, st, pos = self.q.get(timeout=120)
             if st == "ready":
                 state[tid] = "ready"
                 pending -= 1
